@@ -441,6 +441,10 @@ def build(tier='quick', seed=0):
         full.append(decl('int', t, sanitizers=[S('with', f'|x| x.clamp(1, 100)', 'closure')],
                          derives=['Debug', 'TryFrom', 'FromStr', 'Deserialize', 'Serialize'], tags=['sanitize', 'infallible']))
         full.append(decl('int', t, derives=['Debug', 'TryFrom', 'FromStr'], tags=['bare', 'infallible']))
+        # custom sanitizer + validators + Arbitrary (accepted by the macro for integers)
+        full.append(decl('int', t, sanitizers=[S('with', '|x| x / 2', 'closure')],
+                         validators=[V('greater_or_equal', '1', 1, 'lit'), V('less', '40', 40, 'lit')],
+                         derives=['Debug', 'Arbitrary'], tags=['arb', 'sanitize']))
         # no guards at all
         full.append(decl('int', t, derives=full_derives('int', False, with_default=True),
                          default={'text': '42', 'value': 42}, tags=['bare']))
